@@ -293,3 +293,36 @@ seed("c04-index-record-inside-if", "C04", BD, """            index[ k ] = i + 1;
                 index[ k ] = i + 1;""", "exchange-pair")
 seed("c04-mulassign-div", "C04", BD, "        self.compact *= scalar;", "        self.compact /= scalar;", "operators")
 seed("c04-search-init-noabs", "C04", BD, "let mut dum = au[(k, 0)].abs();", "let mut dum = au[(k, 0)];", "magnitude")
+
+# ---------------------------------------------------------------- C05
+TR = "src/tridiagonal.rs"
+seed("c05-n1-branch-removed", "C05", TR, """        if self.n == 1 {
+            result[ 0 ] = self.main[ 0 ] * vec[ 0 ];
+            return result;
+        }
+""", "", "bounds", "the original defect")
+seed("c05-zero-pivot-panic-removed", "C05", TR, '            if beta == T::zero() { panic!( "Tridiagonal error: zero pivot." ); }\n', "", "refuse")
+seed("c05-stencil-sup-wrong-col", "C05", TR, "                        + self.sup[ i ] * vec[ i + 1 ];", "                        + self.sup[ i ] * vec[ i ];", "stencil")
+seed("c05-convert-sub-above", "C05", TR, "dense[(i,i-1)] = self.sub[i - 1];", "dense[(i-1,i)] = self.sub[i - 1];", "convert")
+seed("c05-index-sub-sup-swapped", "C05", TR, """        if i == j + 1 { return &self.sub[j]; }
+        if i + 1 == j { return &self.sup[i]; }
+        panic!("Tridiagonal error: index out of bounds.");
+    }
+}
+
+impl<T> IndexMut""", """        if i == j + 1 { return &self.sup[j]; }
+        if i + 1 == j { return &self.sub[i]; }
+        panic!("Tridiagonal error: index out of bounds.");
+    }
+}
+
+impl<T> IndexMut""", "storage-map")
+seed("c05-transpose-noop-half", "C05", TR, "        self.sup = temp;\n", "        self.sup = self.sub.clone();\n        let _ = temp;\n", "transpose")
+seed("c05-det-sign", "C05", TR, "                   - self.sub[ j - 2 ] * self.sup[ j - 2 ] * f[ j - 2 ];", "                   + self.sub[ j - 2 ] * self.sup[ j - 2 ] * f[ j - 2 ];", "det-recurrence")
+seed("c05-det-wrong-offdiag", "C05", TR, "                   - self.sub[ j - 2 ] * self.sup[ j - 2 ] * f[ j - 2 ];", "                   - self.sub[ j - 2 ] * self.sub[ j - 2 ] * f[ j - 2 ];", "det-recurrence")
+seed("c05-sub-op-adds-main", "C05", TR, "        let main = self.main - minus.main;", "        let main = self.main + minus.main;", "operators")
+seed("c05-mulassign-skips-sup", "C05", TR, "        self.sup *= rhs.clone();\n", "        self.sub *= rhs.clone();\n", "operators")
+seed("c05-first-pivot-guard-removed", "C05", TR, '        if self.main[0] == T::zero() { panic!( "Tridiagonal error: zero on leading diagonal." ); }\n', "", "refuse")
+seed("c05-stencil-last-row", "C05", TR, "        result[ self.n - 1 ] = self.sub[ self.n - 2 ] * vec[ self.n - 2 ]  ", "        result[ self.n - 1 ] = self.sub[ self.n - 2 ] * vec[ self.n - 1 ]  ", "stencil")
+seed("c05-with-vecs-guard", "C05", TR, "if sub.len() != n - 1 || sup.len() != n - 1 { ", "if sub.len() != n - 1 || sup.len() != n { ", "invariant")
+seed("c05-convert-last-main", "C05", TR, "dense[(self.n - 1, self.n - 1)] = self.main[self.n - 1];", "dense[(self.n - 1, self.n - 1)] = self.main[self.n - 2];", "convert")
